@@ -194,3 +194,37 @@ Proof.
   - intros u m Hi Hs. apply (E u m Hi). eapply Permutation_in; [apply Permutation_sym; eauto|auto].
   - intros m Hm. destruct (F m Hm) as [Hi|?]; auto. left. eapply Permutation_in; eauto.
 Qed.
+
+(* node n moves from holder i to holder j *)
+Lemma own_move U stk H H' i j n :
+  i <> j -> Permutation (H i) (n :: H' i) -> H' j = n :: H j ->
+  (forall u, u <> i -> u <> j -> H' u = H u) ->
+  OwnInv U stk H -> OwnInv U stk H'.
+Proof.
+  intros Hij P Ej Ho I.
+  pose (H1 := upd H i (H' i)).
+  assert (I1 : OwnInv U (n :: stk) H1).
+  { apply (own_give U stk H H1 i n); auto.
+    - intros u Hu. unfold H1. apply upd_other; auto.
+    - unfold H1. rewrite upd_same. exact P. }
+  apply (own_take U [n] stk H1 H' j); auto.
+  - intros u Hu. unfold H1. destruct (Nat.eq_dec u i) as [->|Hi].
+    + rewrite upd_same. reflexivity.
+    + rewrite upd_other by assumption. apply Ho; auto.
+  - unfold H1. rewrite upd_other by auto. rewrite Ej. apply Permutation_refl.
+Qed.
+
+Lemma chain_last nx L : forall h, chain nx h L -> L <> [] -> nx (last L 0) = 0.
+Proof.
+  induction L as [|a r IH]; intros h C Hne; [congruence|].
+  cbn in C. destruct C as (E & Z & C). destruct r as [|b r'].
+  - cbn in *. exact C.
+  - change (last (a :: b :: r') 0) with (last (b :: r') 0). eapply IH; eauto. discriminate.
+Qed.
+
+Lemma last_in (L : list nat) : L <> [] -> In (last L 0) L.
+Proof.
+  induction L as [|a r IH]; [congruence|]. intros _. destruct r as [|b r'].
+  - left; reflexivity.
+  - right. apply IH. discriminate.
+Qed.
